@@ -9,7 +9,9 @@ from .builder_rec import RecWriter
 STYLES = {";": (";", ""), "(": ("(", ")"), "[": ("[", "]"), "<": ("<", ">"), '"': ('"', '"'), "'": ("'", "'"),
           "/*": ("/*", "*/"), "//": ("//", ""), "#": ("#", "")}
 ENTRIES = ["comment", "comment_args", "annotate", "move", "rapid", "move_absolute", "set_axis", "probe", "auto_home",
-           "emergency_halt", "rapid_absolute"]
+           "emergency_halt", "rapid_absolute",
+           # traced curves carry their extra keyword arguments, the comment among them, to every segment (added after seed C09i)
+           "trace_arc", "trace_polyline", "trace_spline"]
 
 
 def tokens(style):
@@ -58,6 +60,18 @@ def _emit(g, entry, text):
         g.auto_home(x=0.0, comment=text)
     elif entry == "emergency_halt":
         g.emergency_halt(text)
+    elif entry.startswith("trace_"):
+        _trace(g, entry, text)
+
+
+def _trace(g, entry, text):
+    g.set_resolution(1.0)
+    if entry == "trace_arc":
+        g.trace.arc((4.0, 0.0), (2.0, 0.0), comment=text)
+    elif entry == "trace_polyline":
+        g.trace.polyline([(1.0, 1.0), (2.0, 0.0)], comment=text)
+    else:
+        g.trace.spline([(1.0, 2.0), (3.0, 2.0), (4.0, 0.0)], comment=text)
 
 
 def run_entry(style, entry, text, eol="\n", pre_style=None, bad_reconf=False):
@@ -107,6 +121,8 @@ def run_entry(style, entry, text, eol="\n", pre_style=None, bad_reconf=False):
             g.auto_home(x=0.0, comment=text)
         elif entry == "emergency_halt":
             g.emergency_halt(text)
+        elif entry.startswith("trace_"):
+            _trace(g, entry, text)
         g.move(x=5.0)
     except Exception as e:
         res = type(e).__name__
